@@ -91,6 +91,12 @@ def signature(op, case, spelling):
             tuple(f.get("view", "") for f in feats), tuple(bool(f.get("zero_term")) for f in feats))
 
 
+def same_dtype(a, b):
+    """Equal coefficient types; byte order is storage, not type."""
+    a, b = numpy.dtype(a), numpy.dtype(b)
+    return a == b or a.newbyteorder("=") == b.newbyteorder("=")
+
+
 def run_case(case, ctx, check_meta=True, rtol_float=1e-9):
     """Execute one catalogue case and compare with the model. Returns got or None."""
     import numpoly
@@ -151,7 +157,7 @@ def run_case(case, ctx, check_meta=True, rtol_float=1e-9):
             if op.name == "broadcast_arrays":
                 src = real[n]
                 if isinstance(src, numpoly.ndpoly) and (
-                        tuple(g.names) != tuple(src.names) or g.dtype != src.dtype):
+                        tuple(g.names) != tuple(src.names) or not same_dtype(g.dtype, src.dtype)):
                     facts["failure"] = "names"
                     ctx.violation(facts, f"broadcast_arrays: result[{n}] names/dtype "
                                          f"{g.names}/{g.dtype} != {src.names}/{src.dtype}", case)
@@ -162,7 +168,7 @@ def run_case(case, ctx, check_meta=True, rtol_float=1e-9):
                     ctx.violation(facts, f"{op.name}/{spelling}: names {g.names} != "
                                          f"{polys[0].names}", case)
                     return None
-                if g.dtype != polys[0].dtype:
+                if not same_dtype(g.dtype, polys[0].dtype):
                     facts["failure"] = "dtype"
                     ctx.violation(facts, f"{op.name}/{spelling}: dtype {g.dtype} != "
                                          f"{polys[0].dtype}", case)
@@ -180,7 +186,7 @@ def run_case(case, ctx, check_meta=True, rtol_float=1e-9):
                                          f"{sorted(needed)}", case)
                     return None
                 if all(isinstance(r, (numpy.ndarray, numpoly.ndpoly)) for r in real) and \
-                        g.dtype != want:
+                        not same_dtype(g.dtype, want):
                     facts["failure"] = "dtype"
                     ctx.violation(facts, f"{op.name}/{spelling}: dtype {g.dtype} != {want}", case)
                     return None
